@@ -496,6 +496,12 @@ class FlatGen:
                 self.params.append("p1")
             self.states.add(self.scalars[0])
             e = ("eq", ("der", ("bin", "+", ("bin", "*", var(self.params[0]), s1), s2)), num(1))
+        elif x == "ext:der-of-expression-with-time":
+            self.states.add(self.scalars[0])
+            inner = r.choice([("bin", "+", s1, ("bin", "*", num(r.randint(2, 5)), var("time"))),
+                              ("bin", "*", var("time"), s1),
+                              ("bin", "-", ("bin", "*", num(3), s1), var("time"))])
+            e = ("eq", ("der", inner), num(1))
         elif x == "ext:if-equation-without-else":
             return
         else:
